@@ -54,6 +54,8 @@ def gen_circuit(rs, idx, tier, kinds=None, clt=0.25):
     assign_ids(root)
     if rs.rand() < 0.5:
         relabel_ids(root, rs)
+    if rs.rand() < 0.3:
+        G.second_hand(root, rs)     # a used object: queried under other parameter values, which were then restored in place
     return root
 
 
